@@ -461,6 +461,37 @@ MATH_OPS = [
 ]
 
 
+def _inner_calls(ctx, m, fn, inner):
+    """[(module, function, call node, bindings)] -- calls of the aggregate named *inner* made by fn itself, or by a
+    repository function fn calls (whose parameters are then bound by that call)."""
+    from ..model import _bind_call
+    prog = ctx.program
+    out = []
+
+    def is_inner(mod, n):
+        dn = dotted_name(n.func)
+        return dn is not None and dn.split(".")[-1] == inner
+    for n in ast.walk(fn):
+        if isinstance(n, ast.Call) and is_inner(m, n):
+            out.append((m, fn, n, {}))
+    if out:
+        return out
+    for n in ast.walk(fn):
+        if not isinstance(n, ast.Call):
+            continue
+        dn = dotted_name(n.func)
+        ref = prog.resolve_dotted(m, dn) if dn else None
+        if ref is None or ref[0] != "def" or ref[2] is fn:
+            continue
+        hm, H = ref[1], ref[2]
+        for x in ast.walk(H):
+            if isinstance(x, ast.Call) and is_inner(hm, x):
+                b = _bind_call(ctx.ex, m, n, hm, H, {}, {})
+                if b is not None:
+                    out.append((hm, H, x, b))
+    return out
+
+
 def rule_ag4(ctx: Ctx) -> RuleResult:
     r = RuleResult("AG-4", "math aggregates have one code path: 'reduce' and 'key_mapper' are forwarded unchanged to scan / to the inner aggregate")
     for rel, name, inner in MATH_OPS:
@@ -469,20 +500,26 @@ def rule_ag4(ctx: Ctx) -> RuleResult:
         r.groups.add((rel, name))
         params = m.scopes[fn].params
         r.ob("reduce" in params, lambda: Finding("AG-4", "%s::%s{param}" % (rel, name), m.where(fn), "%s has no reduce parameter" % name))
-        calls = [n for n in ast.walk(fn) if isinstance(n, ast.Call) and dotted_name(n.func) and dotted_name(n.func).split(".")[-1] == inner]
-        ok = len(calls) == 1
+        # the single call of the inner aggregate, in the operator itself or in a shared builder it delegates to
+        # (extremum(operator.lt, key_mapper, reduce)); its reduce argument must be the operator's reduce parameter
+        reached = _inner_calls(ctx, m, fn, inner)
+        ok = len(reached) == 1
         if ok:
-            kws = {k.arg: ast.unparse(k.value) for k in calls[0].keywords}
-            ok = kws.get("reduce") == "reduce"
+            cm, cfn, call, bind = reached[0]
+            kw = [k.value for k in call.keywords if k.arg == "reduce"]
+            t = ctx.ex.eval_in_scope(cm, cfn, kw[0], ctx=bind) if kw else None
+            ok = t == ("param", "reduce", m.scopes[fn].qualname)
+        helper_fns = [x[1] for x in reached if x[1] is not fn]
         r.ob(ok, lambda: Finding("AG-4", "%s::%s{reduce}" % (rel, name), m.where(fn),
                                  "%s must pass reduce=reduce to its single %s(...) call so that the streaming and the reduced variant share one fold" % (name, inner)))
         # tests on reduce inside the operator would create a second code path
-        tests = [n for n in ast.walk(fn) if isinstance(n, (ast.If, ast.IfExp)) and any(isinstance(x, ast.Name) and x.id == "reduce" for x in ast.walk(n.test))]
+        tests = [n for f_ in [fn] + helper_fns for n in ast.walk(f_)
+                 if isinstance(n, (ast.If, ast.IfExp)) and any(isinstance(x, ast.Name) and x.id == "reduce" for x in ast.walk(n.test))]
         r.ob(not tests, lambda: Finding("AG-4", "%s::%s{branch-on-reduce}" % (rel, name), m.where(tests[0]),
                                         "%s branches on reduce: the streaming value after the last item may differ from the reduced value" % name))
         if "key_mapper" in params:
             used = [n for n in ast.walk(fn) if isinstance(n, ast.Call) and isinstance(n.func, ast.Name) and n.func.id == "key_mapper"]
-            fwd = [n for n in ast.walk(fn) if isinstance(n, ast.Call) and any(isinstance(a, ast.Name) and a.id == "key_mapper" for a in n.args)]
+            fwd = [n for n in ast.walk(fn) if isinstance(n, ast.Call) and any(isinstance(a, ast.Name) and a.id == "key_mapper" for a in list(n.args) + [k.value for k in n.keywords])]
             r.ob(bool(used) or bool(fwd), lambda: Finding("AG-4", "%s::%s{key_mapper}" % (rel, name), m.where(fn), "%s ignores its key_mapper" % name))
     r.require_instances(9)
     return r
